@@ -277,10 +277,51 @@ func init() {
 	})
 
 	// concurrent {schema, docs, insts, k, m}: k goroutines x m rounds over one Resolved / one Schema tree (C13)
+	// Optional arg infer {type, opts, warm} (as for the op `infer`): the goroutines additionally call ForType on `type` and on every
+	// `warm` type with ONE *ForOptions value shared by all of them (one TypeSchemas map whose entry schemas were decoded from JSON);
+	// every result must marshal like the result of the same call made alone with an options object of its own, and the shared
+	// TypeSchemas must be unchanged afterwards. Absent (the default): only For[T](nil) as before.
 	register("concurrent", func(args json.RawMessage) (any, error) {
 		var a validateArgs
 		if err := json.Unmarshal(args, &a); err != nil {
 			return nil, err
+		}
+		var inf struct {
+			Infer *inferArgs `json:"infer"`
+		}
+		if err := json.Unmarshal(args, &inf); err != nil {
+			return nil, err
+		}
+		var inferTypes []reflect.Type
+		var inferSeq [][]byte
+		var sharedOpts, twinOpts *jsonschema.ForOptions
+		if ia := inf.Infer; ia != nil {
+			for _, raw := range append([]json.RawMessage{ia.Type}, ia.Warm...) {
+				t, err := buildType(raw)
+				if err != nil {
+					return nil, err
+				}
+				own, err := ia.forOptions()
+				if err != nil {
+					return nil, err
+				}
+				var b []byte
+				func() {
+					defer func() {
+						if r := recover(); r != nil {
+							b = []byte(fmt.Sprintf("panic: %v", r))
+						}
+					}()
+					if f, err := jsonschema.ForType(t, own); err != nil {
+						b = []byte("error")
+					} else {
+						b, _ = json.Marshal(f)
+					}
+				}()
+				inferTypes, inferSeq = append(inferTypes, t), append(inferSeq, b)
+			}
+			sharedOpts, _ = ia.forOptions()
+			twinOpts, _ = ia.forOptions()
 		}
 		u, uerr, herr := buildUniverse(&a)
 		if herr != nil {
@@ -405,6 +446,18 @@ func init() {
 					if b, _ := json.Marshal(f); !bytes.Equal(b, seqForB) {
 						note()
 					}
+					for j := range inferTypes {
+						i := (j + g) % len(inferTypes) // the goroutines begin with different types
+						var b []byte
+						if f, err := jsonschema.ForType(inferTypes[i], sharedOpts); err != nil {
+							b = []byte("error")
+						} else {
+							b, _ = json.Marshal(f)
+						}
+						if !bytes.Equal(b, inferSeq[i]) {
+							note()
+						}
+					}
 					// struct instances exercise the struct-property cache; Equal / hashing the jsonNames cache
 					jsonschema.Equal(map[string]any{"a": 1}, map[string]any{"a": 1.0})
 				}
@@ -412,6 +465,9 @@ func init() {
 		}
 		close(start)
 		wg.Wait()
+		if sharedOpts != nil && !reflect.DeepEqual(sharedOpts.TypeSchemas, twinOpts.TypeSchemas) {
+			note() // the TypeSchemas all the calls shared was written to
+		}
 		// different Schema values that carry unknown keywords next to ordinary ones, marshaled at the same time: whatever Marshal
 		// recycles between calls (buffers, sets) is then handed from one schema's call to another's
 		variants := make([]*jsonschema.Schema, 4)
